@@ -155,3 +155,23 @@ Proof.
   destruct (total_debt_set _ _ _ PIdle h c NE) as (rest & A & _). rewrite A in L. simpl in L.
   rewrite !N.eqb_refl in L. simpl in L. lia.
 Qed.
+
+(* at every moment, crashes included, a handle's count for a block is at least the number of ordinals of the
+   block the handle owns: an owned address is always reachable from its handle (ReleaseByHandle finds it) *)
+Theorem handle_never_undercounts n s : preach n s -> forall h c, (p_alloc s h c <= p_hcnt s h c)%nat.
+Proof. intros R h c. rewrite (handle_ledger n s R h c). lia. Qed.
+
+(* non-vacuity: two clients; client 0 increments and allocates 2, client 1 increments, fails its CAS, and has
+   not yet rolled back: the ledger holds with a non-zero debt *)
+Example ledger_example :
+  exists s, preach 2 s /\ p_hcnt s 1%N 7%N = 3%nat /\ p_alloc s 1%N 7%N = 2%nat /\
+            total_debt (p_clients s) 1%N 7%N = 1%nat.
+Proof.
+  eexists. split.
+  - eapply r_step; [eapply r_step; [eapply r_step; [eapply r_step; [apply r_init|]|]|]|].
+    + apply (s_inc _ 0 1%N 7%N 2). reflexivity.
+    + apply (s_cas_ok _ 0 1%N 7%N 2). reflexivity.
+    + apply (s_inc _ 1 1%N 7%N 1). reflexivity.
+    + apply (s_cas_fail _ 1 1%N 7%N 1). reflexivity.
+  - simpl. repeat split; reflexivity.
+Qed.
